@@ -37,7 +37,7 @@ RULE = (
     "order >= 2."
 )
 ASSUMPTIONS = ["the user's series caches its own elements (it is a BlockSeries), so a second evaluation can only come from the library deleting input terms"]
-REQUIRED_CLASSES = {"all": ["form=blocked", "form=scalar", "elements=sympy", "mode=nonhermitian", "params=2", "params=3", "terms-outside-cone"]}
+REQUIRED_CLASSES = {"all": ["form=blocked", "form=scalar", "form=scalar_implicit", "elements=sympy", "mode=nonhermitian", "params=2", "params=3", "terms-outside-cone"]}
 
 
 def strategy(tier):
@@ -64,7 +64,7 @@ def strategy(tier):
             while sum(n) > (4 if k == 1 else 3):
                 n[n.index(max(n))] -= 1
             reqs.append([draw(st.sampled_from(["H_tilde", "U", "U_inv"])), draw(st.integers(0, nb - 1)), draw(st.integers(0, nb - 1))] + n)
-        form = draw(st.sampled_from(["blocked", "scalar"]))
+        form = draw(st.sampled_from(["blocked", "scalar", "scalar_implicit"]))
         symbolic = draw(st.integers(0, 3)) == 0 and len(p["assign"]) <= 4
         return {"problem": p, "form": form, "symbolic": symbolic, "requests": reqs, "poison_for": draw(st.integers(0, 5))}
 
@@ -86,6 +86,10 @@ def _val(v, exact):
         return "zero"
     if v is one:
         return "one"
+    from scipy.sparse.linalg import LinearOperator
+
+    if isinstance(v, LinearOperator):  # blocks that involve the implicit subspace
+        return np.asarray(v @ np.eye(v.shape[1]), dtype=complex)
     return to_oracle(v, False)
 
 
@@ -99,7 +103,36 @@ def check_case(case, enforce_all=False):
     k = p["n_params"]
     zero_order = (0,) * k
     log = []
-    H, kwargs = logged_hamiltonian(p, form=form, log=log, symbolic=symbolic)
+    lib_form = form
+    if form == "scalar_implicit":
+        # implicit mode: whole-matrix lazy series, eigenvectors of all blocks but the last, default (direct) solver
+        lib_form = "scalar"
+        if len(p["blocks"]) < 2 or symbolic:
+            form = "scalar"
+            out.labels[-3] = "form=scalar"
+
+    def implicit(kw):
+        if form != "scalar_implicit":
+            return kw
+        from vlib.gen_matrix import states_of
+
+        kw = dict(kw)
+        kw.pop("subspace_indices")
+        last = len(p["blocks"]) - 1
+        kw["subspace_eigenvectors"] = [np.eye(len(p["assign"]))[:, s_] for s_ in states_of(p)[:-1]]
+        fd = kw.get("fully_diagonalize")
+        if isinstance(fd, dict):
+            fd = {b_: m for b_, m in fd.items() if b_ != last}
+        elif fd is not None:
+            fd = tuple(b_ for b_ in fd if b_ != last)
+        if fd:
+            kw["fully_diagonalize"] = fd
+        else:
+            kw.pop("fully_diagonalize", None)
+        return kw
+
+    H, kwargs = logged_hamiltonian(p, form=lib_form, log=log, symbolic=symbolic)
+    kwargs = implicit(kwargs)
     try:
         with warnings.catch_warnings():
             warnings.simplefilter("ignore")
@@ -172,7 +205,8 @@ def check_case(case, enforce_all=False):
     # (c) poisoned fresh computation for one request
     r = case["requests"][case["poison_for"] % len(case["requests"])]
     name, i, j, n = r[0], r[1], r[2], tuple(r[3:])
-    Hp, kwargs_p = logged_hamiltonian(p, form=form, symbolic=symbolic, poison=lambda o: not _le(o, n))
+    Hp, kwargs_p = logged_hamiltonian(p, form=lib_form, symbolic=symbolic, poison=lambda o: not _le(o, n))
+    kwargs_p = implicit(kwargs_p)
     try:
         with warnings.catch_warnings():
             warnings.simplefilter("ignore")
